@@ -68,3 +68,21 @@ Q(id='C05.convert_msa_to_internal', props=['C05', 'C14'], cls='P', harness='c05_
   assumptions=[A_NOFAIL, 'data invariant: residues stored in seq->seq[] are ASCII letters (established by the readers, see C04/C05 reader queries); instantiated for the ghost residue only',
                'sequence loop unwound for 2 sequences (each iteration independent); residue loop closed by invariant for any length'])
 PROPS['C05'] = dict(level='other', level_text='x', level_note='x', technique='x')
+
+# =========================================================================== C13 detect_alphabet
+A_LOG = 'LOG-axioms: libm log() assumed within 1e-9 of the mathematical value for the 5 constants detect_alphabet evaluates (contracts/stubs_log.h)'
+A_REPS = ('histogram restricted to 13 representative positions (3 letters shared by both models, U/u, 3 protein-only letters, 2 letters in neither model, 3 non-letter characters); '
+          'each count symbolic in 0..1e9; the other 115 entries are 0')
+for pm in (1, 2):
+    Q(id='C13.detect_alphabet.premise%d' % pm, props=['C13', 'C04'] + (['C14'] if pm == 1 else []), cls='B', harness='c13_detect_alphabet.c', entry='h_c13_detect',
+      mode='wrap', unwind=130, timeout=2400, defs=['-DKV_PREMISE=%d' % pm], funcs=['detect_alphabet'],
+      trusted=[TRUST_MSG], assumptions=[A_LOG, A_REPS, A_FLOAT, A_WRAP], native_srcs=['lib/src/tldevel.c', 'lib/src/msa_alloc.c', 'lib/src/alphabet.c'])
+PROPS['C13'] = dict(level='other', level_text='x', level_note='x', technique='x')
+
+# =========================================================================== C17
+Q(id='C17.compare_pair', props=['C17'], cls='P', harness='c17_compare_pair.c', entry='h_c17_compare_pair',
+  mode='dfcc', enforce=['compare_pair'], loop_contracts=True, loops_files=['msa_cmp.loops'], unwind=12, timeout=900, replayable=False,
+  funcs=['compare_pair'], trusted=[TRUST_MSG, 'isalpha: CBMC C-locale model (-D__NO_CTYPE)'],
+  assumptions=[A_NOFAIL, 'row widths 1..1000 (KV_MAXW); counters below 2^60',
+               'premise of C17 instantiated by a ghost assume between loops 2 and 3 of compare_pair: each row has the same number of residues in both alignments'])
+PROPS['C17'] = dict(level='other', level_text='x', level_note='x', technique='x')
